@@ -425,19 +425,22 @@ fn exec_c12(case: &Case12, obs: &mut Obs) -> Result<(), Failure> {
     match case {
         Case12::History(steps) => {
             obs.count("probe:hide-history");
-            for (i, st) in steps.iter().enumerate() {
-                if matches!(st, Case12::History(_)) {
-                    continue;
-                }
-                if let Err(mut f) = exec_c12(st, obs) {
-                    if steps.len() > 1 {
-                        f.class = format!("history:{}", f.class.split(':').next().unwrap_or(""));
-                        f.detail = format!("call #{i} of a {}-call history on one thread: {}", steps.len(), f.detail);
+            // on a thread of its own: the history is complete
+            on_fresh_thread(|| {
+                for (i, st) in steps.iter().enumerate() {
+                    if matches!(st, Case12::History(_)) {
+                        continue;
                     }
-                    return Err(f);
+                    if let Err(mut f) = exec_c12(st, obs) {
+                        if steps.len() > 1 {
+                            f.class = format!("history:{}", f.class.split(':').next().unwrap_or(""));
+                            f.detail = format!("call #{i} of a {}-call history on one thread: {}", steps.len(), f.detail);
+                        }
+                        return Err(f);
+                    }
                 }
-            }
-            Ok(())
+                Ok(())
+            })
         }
         Case12::Hide(c) => {
             obs.steps += 1;
